@@ -52,6 +52,19 @@ func (w *W) eachValidDoc(scale int, fn inputFn) {
 		i++
 		fn("doc-big", gen.Doc(rr, gen.DocCfg{Size: sz, MaxDepth: 6, MaxFan: 20, WS: k % 3, Esc: 20, LongStr: 10, DupKeys: true}))
 	}
+	// strings around the 64 KiB sizes the serializer's buffers and tables use, plain and with an escape,
+	// as value and as key, next to short strings and repeated (the second occurrence is a table hit)
+	for _, n := range []int{65535, 65536, 65537, 70000, 131071, 131073} {
+		for v := 0; v < 2; v++ {
+			if !w.mine(i) {
+				i++
+				continue
+			}
+			i++
+			long := strings.Repeat("s", n-2) + []string{"zz", `\n`}[v]
+			fn("string-64k", []byte(`["a","`+long+`",{"`+long+`":"b"},"`+long+`","c"]`))
+		}
+	}
 	// 2. boundary families: probe start at structural ordinal n
 	for _, base := range []int{1408, 2816, 4224} {
 		for n := base - 48; n <= base+3; n++ {
